@@ -127,7 +127,14 @@ func genStream(r *fw.Rand) ([]byte, []string) {
 		}
 		var payload []byte
 		pk := r.Intn(8)
+		if r.Intn(3) == 0 {
+			// a well-formed request of any type, content referring to things that may not exist
+			et, ep, tag := genEnvelope(r)
+			typ, payload, pk = byte(et), ep, 99
+			tags = append(tags, tag)
+		}
 		switch {
+		case pk == 99:
 		case typ == 1 && pk < 5:
 			payload = writeReq(pk)
 			tags = append(tags, fmt.Sprintf("write-kind-%d", pk))
@@ -362,15 +369,15 @@ func ChildMain(dir string) {
 }
 
 // send writes the mux header + stream, half-closes, and reads reply frames until EOF/timeout.
-func send(addr string, stream []byte) (types []int, err error) {
+func send(addr string, stream []byte) (types []int, status []string, err error) {
 	conn, err := net.DialTimeout("tcp", addr, 2*time.Second)
 	if err != nil {
-		return nil, err
+		return nil, nil, err
 	}
 	defer conn.Close()
 	conn.SetDeadline(time.Now().Add(3 * time.Second))
 	if _, err := conn.Write(append([]byte{coordinator.MuxHeader}, stream...)); err != nil {
-		return nil, nil
+		return nil, nil, nil
 	}
 	if tc, ok := conn.(*net.TCPConn); ok {
 		tc.CloseWrite()
@@ -379,19 +386,21 @@ func send(addr string, stream []byte) (types []int, err error) {
 	for {
 		typ, e := br.ReadByte()
 		if e != nil {
-			return types, nil
+			return types, status, nil
 		}
 		var sz int64
 		if e := binary.Read(br, binary.BigEndian, &sz); e != nil {
-			return types, nil
+			return types, status, nil
 		}
 		if sz < 0 || sz > 64<<20 {
-			return append(types, int(typ)), nil
+			return append(types, int(typ)), append(status, "?"), nil
 		}
-		if _, e := io.CopyN(io.Discard, br, sz); e != nil {
-			return append(types, int(typ)), nil
+		payload := make([]byte, sz)
+		if _, e := io.ReadFull(br, payload); e != nil {
+			return append(types, int(typ)), append(status, "?"), nil
 		}
 		types = append(types, int(typ))
+		status = append(status, replyStatus(int(typ), payload))
 	}
 }
 
@@ -432,7 +441,7 @@ func runOp(op string) (out string) {
 		} else {
 			stream = unhx(f[1])
 		}
-		types, _ := send(c.addr, stream)
+		types, status, _ := send(c.addr, stream)
 		if os.Getenv("C15_DEBUG") != "" {
 			fmt.Fprintln(os.Stderr, "DEBUG", op[:min(len(op), 60)], types)
 		}
@@ -461,6 +470,17 @@ func runOp(op string) (out string) {
 		if len(ts) > 0 {
 			s = strings.Join(ts, ",")
 		}
+		// a first frame that is complete but does not decode as its request type must not be
+		// answered with a success response
+		if len(stream) >= 9 && len(types) > 0 {
+			ft := int(stream[0])
+			sz := int64(binary.BigEndian.Uint64(stream[1:9]))
+			if sz >= 0 && sz <= int64(len(stream)-9) && types[0] == ft+1 && status[0] == "ok" {
+				if known, ok := requestDecodes(ft, stream[9:9+sz]); known && !ok {
+					return fmt.Sprintf("replies %s MALFORMED-ACCEPTED type=%d len=%d", s, ft, sz)
+				}
+			}
+		}
 		return "replies " + s
 	case "rt":
 		return roundTrips(f[1])
@@ -486,6 +506,8 @@ func (Prop) Oracle(c fw.Case, out []string) fw.Verdict {
 		switch {
 		case o == "DEAD":
 			return fw.Verdict{OK: false, Why: fmt.Sprintf("the node process died after %.200s", op), Signature: "node crashed by " + classify(f)}
+		case strings.Contains(o, "MALFORMED-ACCEPTED"):
+			return fw.Verdict{OK: false, Why: fmt.Sprintf("%.200s: a request that does not decode was answered with success: %s", op, o), Signature: "malformed request answered with success: " + classify(f)}
 		case o == "panic":
 			return fw.Verdict{OK: false, Why: fmt.Sprintf("%.200s panics", op), Signature: "panic in " + f[0]}
 		case f[0] == "ping" && o != "replies 2":
